@@ -49,7 +49,7 @@ def _case(draw):
         if i > 0 and draw(st.integers(0, 3)) == 0:
             spec = {"notes": [], "meta": [], "route": "abs_sorted", "pad": None, "post": None}     # a message-less track
         srcs.append(spec)
-    return {"route": route, "srcs": srcs, "caps": draw(st.lists(st.integers(1, 80), min_size=1, max_size=3)),
+    return {"route": route, "srcs": srcs, "caps": draw(st.lists(st.integers(1, 80), min_size=0, max_size=3)),
             # capacities as given, or re-cut so that they end exactly on the source's final tick
             "caps_mode": draw(st.sampled_from(["given", "to_end", "to_end"])),
             "requant": draw(st.booleans()), "key": draw(st.one_of(st.none(), st.sampled_from(gens.KEYS))),
